@@ -1,7 +1,9 @@
 // healthh drives the real internal/health for C18:
-//   -mode seq   sequential histories (from specs/HealthSeq.tla) with GET /readyz after every prefix
-//   -mode conc  concurrent programs (from specs/HealthMC.tla) under the controlled scheduler
-//   -mode wait  WaitForReady scripts (from specs/HealthWait.tla)
+//
+//	-mode seq   sequential histories (from specs/HealthSeq.tla) with GET /readyz after every prefix
+//	-mode conc  concurrent programs (from specs/HealthMC.tla) under the controlled scheduler
+//	-mode wait  WaitForReady scripts (from specs/HealthWait.tla)
+//
 // and records what happened for specs/HealthTrace.tla.
 package main
 
